@@ -17,7 +17,8 @@ Tie, re-run on every check:
     centers_hz, samples of the impulse and frequency responses, dtype flags) are
     certified by Interval against the R-valued model, bank by bank;
  3. search: the property itself, stated executably, over generated banks x
-    filters x widths.
+    filters x widths; again for banks built after config.EFFECTIVE_SUPPORT_THRESHOLD
+    was lowered / raised at run time (bounds relative to the value in force).
 """
 
 import json
@@ -259,27 +260,40 @@ def support_shape(bank, cfg):
     return bad
 
 
-def run_search(ctx, F, np, eps, n_banks, cap, time_budget, seeds=()):
-    """The executable property over generated banks x filters x widths."""
+# The re-tuned-threshold phase keeps to filters whose supports_hz spans at most this many sampling periods (a regime the
+# shipped threshold reaches too).  Beyond it the periodic images that get_frequency_response leaves out (each below the
+# threshold, polynomial tails of a gammatone) add up: the unchanged implementation measures ~0.25 x threshold per period
+# spanned in the IDFT clause (order 3: 0.74 at 4 periods, 3.25 at 11.6 periods with the threshold at 2e-5).
+RETUNED_MAX_PERIODS = 4
+
+
+def run_search(ctx, F, np, eps, n_banks, cap, time_budget, seeds=(), threshold=None, kinds=None):
+    """The executable property over generated banks x filters x widths.
+    threshold: the value config.EFFECTIVE_SUPPORT_THRESHOLD was re-assigned to by the caller (recorded with every case;
+    eps must then be that value: the bounds of the property are relative to the threshold in force)."""
     t0 = time.time()
     found = 0
     worst = {}
     todo = list(seeds)
     i = 0
+    tag = "search:" if threshold is None else "retuned-threshold:"
+    extra = {} if threshold is None else dict(EFFECTIVE_SUPPORT_THRESHOLD=threshold)
+    note = "" if threshold is None else (
+        " [bank built after config.EFFECTIVE_SUPPORT_THRESHOLD was set to %g; bounds relative to the threshold in force]" % threshold)
     while (i < n_banks or todo) and time.time() - t0 < time_budget:
         if todo:
             cfg = todo.pop(0)
         else:
-            cfg = gen_config(ctx.rng, thorough=ctx.thorough)
+            cfg = gen_config(ctx.rng, kind=ctx.rng.choice(kinds) if kinds else None, thorough=ctx.thorough)
             i += 1
         bank = try_build(F, cfg)
         if bank is None:
-            ctx.count("search:not-constructible:" + cfg["kind"])
+            ctx.count(tag + "not-constructible:" + cfg["kind"])
             continue
-        ctx.count("search:bank:" + cfg["kind"])
+        ctx.count(tag + "bank:" + cfg["kind"])
         for name, fi, detail in support_shape(bank, cfg):
-            ctx.fail("property violated on the implementation (%s): filter %d supports %r of %r" % (name, fi, detail, cfg),
-                     dict(check=name, config=cfg, filt_idx=fi, supports=detail), kind="impl")
+            ctx.fail("property violated on the implementation (%s): filter %d supports %r of %r%s" % (name, fi, detail, cfg, note),
+                     dict(check=name, config=cfg, filt_idx=fi, supports=detail, **extra), kind="impl")
             found += 1
         nf = bank.num_filts
         fis = set([0, nf - 1, ctx.rng.randrange(nf), ctx.rng.randrange(nf)])
@@ -289,33 +303,36 @@ def run_search(ctx, F, np, eps, n_banks, cap, time_budget, seeds=()):
             odd = [j for j in range(nf) if (cen[j] - shz[j][0]) > (shz[j][1] - cen[j]) * (1 + 1e-9)]
             for j in ctx.rng.sample(odd, min(2, len(odd))):
                 fis.add(j)
-                ctx.count("search:left-half-wider-filter")
+                ctx.count(tag + "left-half-wider-filter")
         except Exception:  # noqa: BLE001
             pass
         fis = sorted(fis)
         for fi in fis:
+            if threshold is not None and bank.supports_hz[fi][1] - bank.supports_hz[fi][0] > RETUNED_MAX_PERIODS * bank.sampling_rate:
+                ctx.count(tag + "skipped:supports_hz-spans-over-%d-sampling-periods" % RETUNED_MAX_PERIODS)
+                continue
             ws, skipped = widths_for(ctx.rng, bank, fi, cap)
             if skipped:
-                ctx.count("search:width-over-cap", len(skipped))
+                ctx.count(tag + "width-over-cap", len(skipped))
             if len(ws) > 4 and not ctx.thorough:
                 keep = set(ws[:2]) | set(ctx.rng.sample(ws[2:], 2))
                 ws = sorted(keep)
             for W in ws:
                 order = ctx.rng.randrange(len(QUERY_ORDERS))
-                ctx.count("search:query-order:" + QUERY_ORDERS[order])
+                ctx.count(tag + "query-order:" + QUERY_ORDERS[order])
                 try:
                     bad, meas = oracle(np, bank, fi, W, eps, order)
                 except AssertionError as e:
                     # the triangular banks assert their own index arithmetic
                     bad, meas = [("assertion", repr(e), None)], {}
-                case = dict(config=cfg, filt_idx=fi, width=W, query_order=QUERY_ORDERS[order])
+                case = dict(config=cfg, filt_idx=fi, width=W, query_order=QUERY_ORDERS[order], **extra)
                 ctx.case(case, nontrivial=bool(meas.get("nt")) or bool(meas.get("nf")))
-                ctx.count("search:eval:" + cfg["kind"])
-                ctx.count("search:width-parity:%s" % ("odd" if W % 2 else "even"))
+                ctx.count(tag + "eval:" + cfg["kind"])
+                ctx.count(tag + "width-parity:%s" % ("odd" if W % 2 else "even"))
                 if meas.get("nt"):
-                    ctx.count("search:nonvacuous-time:" + cfg["kind"])
+                    ctx.count(tag + "nonvacuous-time:" + cfg["kind"])
                 if meas.get("nf"):
-                    ctx.count("search:nonvacuous-freq:" + cfg["kind"])
+                    ctx.count(tag + "nonvacuous-freq:" + cfg["kind"])
                 for k in ("idft", "time", "freq"):
                     if k in meas:
                         kk = cfg["kind"] + ":" + k
@@ -324,12 +341,35 @@ def run_search(ctx, F, np, eps, n_banks, cap, time_budget, seeds=()):
                 for clause, measured, bound in bad:
                     found += 1
                     ctx.fail(
-                        "property violated on the implementation (%s): measured %r, bound %r at %r" % (clause, measured, bound, case),
+                        "property violated on the implementation (%s): measured %r, bound %r at %r%s" % (clause, measured, bound, case, note),
                         dict(check=clause, config=cfg, filt_idx=fi, width=W, query_order=QUERY_ORDERS[order], measured=measured, bound=bound,
-                             supports=[int(v) for v in bank.supports[fi]], supports_hz=[float(v) for v in bank.supports_hz[fi]]),
+                             supports=[int(v) for v in bank.supports[fi]], supports_hz=[float(v) for v in bank.supports_hz[fi]], **extra),
                         kind="impl")
                 if found >= 8:
                     return found, worst
+    return found, worst
+
+
+def retuned_search(ctx, F, np, config, cap):
+    """EFFECTIVE_SUPPORT_THRESHOLD is a documented package setting that may be re-assigned at run time, and the property
+    is stated relative to it: lower (and raise) it AFTER the modules were imported, build banks, and run the same
+    executable property with the value in force.  The setting is restored on the way out."""
+    shipped = config.EFFECTIVE_SUPPORT_THRESHOLD
+    found, worst = 0, {}
+    kinds = ["gabor", "gabor", "gammatone", "gammatone", "gabor", "gammatone", "tri", "fbank"]
+    seeds = [c for c in TARGETED if c["kind"] in ("gabor", "gammatone") and c.get("order", 4) <= 4]
+    try:
+        for thr in [1e-4, 2e-5, 2e-3] + ctx.scale([], [1e-3, 1e-5, 5e-3]):
+            config.EFFECTIVE_SUPPORT_THRESHOLD = thr
+            pick = [dict(c) for c in ctx.rng.sample(seeds, ctx.scale(2, len(seeds)))]
+            f, w = run_search(ctx, F, np, float(thr), ctx.scale(10, 150), cap, ctx.scale(6, 200), seeds=pick, threshold=thr, kinds=kinds)
+            found += f
+            for k, v in w.items():
+                worst["%g:%s" % (thr, k)] = v
+            if found >= 8:
+                break
+    finally:
+        config.EFFECTIVE_SUPPORT_THRESHOLD = shipped
     return found, worst
 
 
@@ -877,9 +917,16 @@ def run(ctx):
     ctx.log("search: %d oracle evaluations, %d violations; worst margins (x threshold): %s" % (
         sum(v for k, v in ctx.dist.items() if k.startswith("search:eval:")), found,
         ", ".join("%s=%s" % (k, v[0]) for k, v in sorted(worst.items()))))
+    found_r, worst_r = retuned_search(ctx, F, np, config, ctx.scale(12000, 40000))
+    found += found_r
+    ctx.cov["worst_margins_retuned_threshold_in_units_of_threshold"] = {k: v[0] for k, v in sorted(worst_r.items())}
+    ctx.log("search with config.EFFECTIVE_SUPPORT_THRESHOLD re-assigned after import: %d oracle evaluations, %d violations; worst margins "
+            "(x threshold in force): %s" % (sum(v for k, v in ctx.dist.items() if k.startswith("retuned-threshold:eval:")), found_r,
+                                            ", ".join("%s=%s" % (k, v[0]) for k, v in sorted(worst_r.items()))))
     ctx.cov["rule"] = (
         "evaluations = certified comparisons (one per observed value: centers_hz, supports_hz, supports, samples of "
-        "get_impulse_response / get_frequency_response, flags) + oracle evaluations (one per bank x filter x width); "
+        "get_impulse_response / get_frequency_response, flags) + oracle evaluations (one per bank x filter x width; also for banks "
+        "built after config.EFFECTIVE_SUPPORT_THRESHOLD was lowered / raised at run time, bounds relative to the value in force); "
         "an oracle evaluation is non-trivial when at least one sample or bin lies outside the advertised support; "
         "distinct = distinct (configuration, filter, width / observed value)"
     )
@@ -906,7 +953,6 @@ def replay(ctx, rp):
 
     F = importlib.import_module("pydrobert.speech.filters")
     config = importlib.import_module("pydrobert.speech.config")
-    eps = float(config.EFFECTIVE_SUPPORT_THRESHOLD)
     f = rp.get("failure", {}).get("replay", {})
     case = f.get("case", f)
     cfg = case.get("config")
@@ -914,6 +960,18 @@ def replay(ctx, rp):
         print(json.dumps(rp.get("failure"), indent=1, default=str))
         print("no concrete input recorded (proof / tie failure)")
         return 1
+    shipped = config.EFFECTIVE_SUPPORT_THRESHOLD
+    try:
+        if case.get("EFFECTIVE_SUPPORT_THRESHOLD") is not None:
+            # the recorded history: the setting was re-assigned after import, before the bank was built
+            config.EFFECTIVE_SUPPORT_THRESHOLD = case["EFFECTIVE_SUPPORT_THRESHOLD"]
+            print("config.EFFECTIVE_SUPPORT_THRESHOLD re-assigned to", config.EFFECTIVE_SUPPORT_THRESHOLD)
+        return _replay_case(ctx, F, np, float(config.EFFECTIVE_SUPPORT_THRESHOLD), case, cfg)
+    finally:
+        config.EFFECTIVE_SUPPORT_THRESHOLD = shipped
+
+
+def _replay_case(ctx, F, np, eps, case, cfg):
     bank = try_build(F, cfg)
     if bank is None:
         print("configuration is not constructible any more: %r" % (cfg,))
